@@ -63,16 +63,41 @@ theorem C09_built_observe_eq_spec (thr : ThrCfg) (r : RawObs) (o : Obs) (hb : r.
   exact C09_observe_eq_spec t wt o
     (faithful_of_parts t o hc (C02_raw_build_cfgOk thr r o hbuild) (C09_built_thr_valid thr r o hbuild hvalid))
 
-/-! ### F-C09-4 (repaired): the folder cache does not outlive the folder -/
+/-! ### F-C09-4 / F-C09-5 (repaired by 59ceb16): the folder cache belongs to ONE folder object
 
-/-- observing a state in which the folder is not there forgets the last-scanned health -/
-theorem C09_folder_cache_forgotten (o : FolderObs) (st : SimState) (h : o.find st = none) : (o.next st).cached = 0 := by
+The cache is tied to the uuid of the folder it was read from; nothing is reset while the name is absent. -/
+
+/-- a cache read from folder object `u` is never used for another object under the same name: its own visible health is read -/
+theorem C09_folder_cache_forgotten (o : FolderObs) (f : FolderState) (u : Nat) (hscan : o.scan = true)
+    (hu : o.cachedFor = some u) (hne : f.uid ≠ some u) : o.health f = f.visible :=
+  FolderObs.health_eq_visible o f hscan (fun _ hsame => by
+    rcases hsame with h | h
+    · rw [hu] at h; cases h
+    · rw [hu] at h; exact absurd h.symm hne)
+
+/-- observing a state in which the folder is not there changes nothing in the memory -/
+theorem C09_absent_keeps_memory (o : FolderObs) (st : SimState) (h : o.find st = none) : o.next st = o := by
   simp [FolderObs.next, h]
 
-/-- hence a folder created LATER under the same name and not yet scanned reads as never scanned (0 = NONE), whatever the deleted
-folder's last-scanned health was (before the repair it read as the deleted folder's: `cached` survived) -/
-theorem C09_recreated_folder_reads_unscanned (o : FolderObs) (st : SimState) (f : FolderState) (h : o.find st = none)
-    (hscan : o.scan = true) (hs : f.scanned = false) : (o.next st).health f = 0 := by
-  simp [FolderObs.health, FolderObs.next, h, hs, hscan]
+/-- hence a folder created LATER under the name of a deleted one and not yet scanned (visible NONE = 0) reads as never scanned,
+whatever the deleted folder's last-scanned health was — whether the name was seen absent in between (F-C09-4: `st`) or not (F-C09-5) -/
+theorem C09_recreated_folder_reads_unscanned (o : FolderObs) (f : FolderState) (u : Nat) (hscan : o.scan = true)
+    (hu : o.cachedFor = some u) (hne : f.uid ≠ some u) (hv : f.visible = 0) :
+    o.health f = 0 ∧ ∀ st, o.find st = none → (o.next st).health f = 0 := by
+  have h0 := C09_folder_cache_forgotten o f u hscan hu hne
+  exact ⟨by rw [h0, hv], fun st h => by rw [C09_absent_keeps_memory o st h, h0, hv]⟩
+
+/-- and the SAME folder, deleted (observed as absent) and restored, still reads its last-scanned health until its next scan -/
+theorem C09_same_folder_restored_keeps_last_scanned (o : FolderObs) (st : SimState) (f : FolderState) (h : o.find st = none)
+    (hscan : o.scan = true) (hu : o.cachedFor = f.uid) (hs : f.scanned = false) : (o.next st).health f = o.cached := by
+  rw [C09_absent_keeps_memory o st h]
+  have : o.sameFolder f = true := (o.sameFolder_iff f).mpr (Or.inr hu)
+  simp [FolderObs.health, hscan, hs, this]
+
+/-- non-vacuity: cache 1 (GOOD) read from object 7; a new object 8 with visible 0 reads 0, object 7 restored reads 1 -/
+example : (({ wh := some ("h", "d"), scan := true, files := [], cached := 1, cachedFor := some 7 } : FolderObs).health
+             { health := 1, visible := 0, scanned := false, files := [], uid := some 8 } = 0) ∧
+          (({ wh := some ("h", "d"), scan := true, files := [], cached := 1, cachedFor := some 7 } : FolderObs).health
+             { health := 1, visible := 1, scanned := false, files := [], uid := some 7 } = 1) := by decide
 
 end Primaite.Obs
